@@ -51,9 +51,12 @@ func genC16(r *Rng, k int) *RunSpec {
 		objs = append(objs, id)
 	}
 	dupCol := "https://" + hostA + "/c/dup"
+	// owned target collections come in all four kinds
+	t1 := Pick(r, []string{"Collection", "Collection", "CollectionPage"})
+	t2 := Pick(r, []string{"OrderedCollection", "OrderedCollection", "OrderedCollectionPage"})
 	a.Docs = append(a.Docs,
-		DocSpec{st.Col1, mustJSON(J{"@context": asCtx, "type": "Collection", "id": st.Col1, "items": []string{st.Dave}})},
-		DocSpec{st.OCol1, mustJSON(J{"@context": asCtx, "type": "OrderedCollection", "id": st.OCol1, "orderedItems": []string{st.Erin, st.Dave}})},
+		DocSpec{st.Col1, mustJSON(J{"@context": asCtx, "type": t1, "id": st.Col1, "items": []string{st.Dave}})},
+		DocSpec{st.OCol1, mustJSON(J{"@context": asCtx, "type": t2, "id": st.OCol1, "orderedItems": []string{st.Erin, st.Dave}})},
 		DocSpec{dupCol, mustJSON(J{"@context": asCtx, "type": "OrderedCollection", "id": dupCol, "orderedItems": []string{st.Dave, st.Erin, st.Dave, objs[0], st.Dave}})},
 	)
 	if r.Intn(3) == 0 {
@@ -86,6 +89,15 @@ func genC16(r *Rng, k int) *RunSpec {
 	}
 	typ := Pick(r, []string{"Update", "Delete", "Add", "Remove", "Like", "Block", "Update", "Delete"})
 	body["type"] = typ
+	if r.Intn(5) == 0 {
+		// co-signed: the activity names other actors beside (even before) the owner of the outbox it is posted to
+		other := Pick(r, []string{st.Carol.ID, st.Dave})
+		if r.Bool() {
+			body["actor"] = []string{other, st.Alice.ID}
+		} else {
+			body["actor"] = []string{st.Alice.ID, other}
+		}
+	}
 	switch typ {
 	case "Update":
 		var os []interface{}
